@@ -834,6 +834,6 @@ func TestPublishPayload(t *testing.T) {
 	})
 	pbt.Run(t, pbt.Spec[Case]{
 		ID: "C05", Name: "publish-payload", Gen: genCase, Run: run, Classify: classify,
-		Quick: 1500, Thorough: 8000, Isolate: true,
+		Quick: 1500, Thorough: 5000, Isolate: true,
 	})
 }
